@@ -58,6 +58,8 @@ def generate(seed, batch):
         'E11': 70e3, 'nu': 0.3, 'h': rng.uniform(0.5, 2.0),
         'with_k0L': True, 'with_kLL': True,
     }
+    # public switch that zeroes the coupling terms of the laminate matrix: tangent and internal force must use the same matrix
+    scen['shell']['force_ortho'] = rng.random() < 0.15
     if scen['shell']['method'] == 'simps2d':
         # Simpson's rule needs odd numbers of points
         scen['shell']['nx'] |= 1
@@ -82,9 +84,11 @@ def generate(seed, batch):
     scen['shell']['pdT'] = rng.random() < 0.75
     scen['shell']['uTM'] = rng.choice([0.0, rng.uniform(-0.5, 0.5)])
     # re-definition between two evaluations at the same state (caches must follow the definition)
-    scen['redefine'] = rng.choice([None, None, 'imperfection', 'imperfection_off', 'grid', 'method', 'inc', 'material', 'geometry', 'prescribed', 'prescribed'])
+    scen['redefine'] = rng.choice([None, None, 'imperfection', 'imperfection_off', 'grid', 'method', 'inc', 'material', 'geometry', 'prescribed', 'prescribed',
+                                   'approx_call'])
     scen['redef_fint_first'] = rng.random() < 0.5
     scen['full_vector'] = rng.random() < 0.25
+    scen['inplace_fd'] = rng.random() < 0.5
     scen['redef_seed'] = rng.getrandbits(32)
     return scen
 
@@ -113,6 +117,10 @@ def shrink_candidates(scen):
     if scen.get('full_vector'):
         c = copy.deepcopy(scen)
         c['full_vector'] = False
+        yield c
+    if scen.get('inplace_fd'):
+        c = copy.deepcopy(scen)
+        c['inplace_fd'] = False
         yield c
     if scen.get('inc', 1.0) != 1.0:
         c = copy.deepcopy(scen)
@@ -169,6 +177,8 @@ def build_shell(scen):
         cc.laminaprop = (123.55e3, 8.708e3, 0.319, 5.695e3, 5.695e3, 5.695e3)
         cc.stack = list(sh['stack'])
         cc.plyt = sh['plyt']
+    if sh.get('force_ortho'):
+        cc.force_orthotropic_laminate = True
     cc.r2 = sh['r2']
     cc.H = sh['H']
     pen = sh['penalty']
@@ -219,8 +229,23 @@ def execute(scen):
         csha = sha_bytes(c.tobytes())
         npts = sh['nx'] * sh['nt']
 
+        held = []
+
+        def hold(m):
+            # tangents handed out earlier are kept by reference; they must still be what they were later on
+            from scipy.sparse import issparse
+            if issparse(m) and hasattr(m, 'data'):
+                held.append((m, sha_bytes(np.ascontiguousarray(m.data).tobytes()), sha_bytes(np.ascontiguousarray(m.indices).tobytes()), len(held)))
+            return m
+
+        def check_held(where):
+            for m, sd, si, n in held:
+                if sha_bytes(np.ascontiguousarray(m.data).tobytes()) != sd or sha_bytes(np.ascontiguousarray(m.indices).tobytes()) != si:
+                    raise Violation('J9-returned-tangent-altered', dict(ctx, which=n, where=where,
+                                                                        why='a tangent matrix returned by an earlier calc_kT call was modified by a later call'))
+
         def kT_of(x):
-            return cc.calc_kT(x, inc=scen['inc'], silent=True).toarray()
+            return hold(cc.calc_kT(x, inc=scen['inc'], silent=True)).toarray()
 
         def fint_of(x):
             return np.array(cc.calc_fint(x, inc=scen['inc'], silent=True), dtype=float)
@@ -315,8 +340,16 @@ def execute(scen):
 
         def j5_at(state, kT_state, label):
             def cdl(hh):
-                fp = fint_of(state + hh * d)
-                fm = fint_of(state - hh * d)
+                if scen.get('inplace_fd'):
+                    # the classic finite-difference loop: ONE amplitude array, modified in place between the calls
+                    buf = np.array(state, dtype=float)
+                    buf += hh * d
+                    fp = fint_of(buf)
+                    buf -= 2 * hh * d
+                    fm = fint_of(buf)
+                else:
+                    fp = fint_of(state + hh * d)
+                    fm = fint_of(state - hh * d)
                 return (fp - fm) / (2 * hh), max(np.abs(fp).max(), np.abs(fm).max())
             D1, s1 = cdl(h)
             D2, s2 = cdl(h / 2)
@@ -339,6 +372,7 @@ def execute(scen):
         # the undeformed free amplitudes are a state too (with an imperfection or prescribed amplitudes the
         # non-linear part of the tangent does not vanish there)
         j5_at(zero, kT_of(zero), 'zero state')
+        check_held('after the Jacobian evaluations')
         bump(res['probes'], 'J5_checked')
         # ---- J8: the same state handed over as a FULL amplitude vector (prescribed entries included, scaled by inc
         #      inside) gives the same tangent / internal force, repeatably, and the caller's vector is not touched
@@ -366,6 +400,37 @@ def execute(scen):
                                                            why='full-size and reduced amplitude vectors of the same state give different results'))
             bump(res['probes'], 'J8_full_vector_checked')
             res['steps'] += 3
+            # ... and a full-size vector is a state of its own: whatever its prescribed entries are (a vector saved from
+            # another run, another load case), tangent and internal force are evaluated at THAT state
+            frng = np.random.Generator(np.random.PCG64([scen['seed'] & 0xFFFFFFFF, 23]))
+            cfree = cfull.copy()
+            exc = list(cc.excluded_dofs)
+            cfree[exc] = ck + frng.standard_normal(len(exc)) * 0.02
+            dfull = np.zeros(size)
+            dfull[mask] = d
+            kT_free = cc.calc_kT(cfree, inc=inc1, silent=True).toarray()
+
+            def cdf(hh):
+                fp = np.array(cc.calc_fint(cfree + hh * dfull, inc=inc1, silent=True), dtype=float)
+                fm = np.array(cc.calc_fint(cfree - hh * dfull, inc=inc1, silent=True), dtype=float)
+                return (fp - fm) / (2 * hh), max(np.abs(fp).max(), np.abs(fm).max())
+            F1, u1 = cdf(h)
+            F2, u2 = cdf(h / 2)
+            fdf = (4 * F2 - F1) / 3.0
+            linf = k0.dot(d)
+            lhsf = fdf - linf
+            rhsf = kT_free.dot(d) - linf
+            noisef = 256 * np.finfo(float).eps * max(u1, u2) / (h / 2) * 3
+            errf = np.abs(lhsf - rhsf).max()
+            scalef = max(np.abs(rhsf).max(), np.abs(lhsf).max())
+            if not (errf <= 1e-6 * scalef + noisef):
+                v = Violation('J8-full-vector', dict(ctx, err=float(errf), scale=float(scalef), noise=float(noisef),
+                                                     why='for a full-size vector with its own prescribed entries the tangent is not the '
+                                                         'Jacobian of the internal force (they are evaluated at different states)'))
+                v.known_id = 'C17-J5-' + model
+                raise v
+            bump(res['probes'], 'J8_free_full_vector_checked')
+            res['steps'] += 5
         # ---- J7: re-definition between evaluations at the same state: the long-lived object must agree with a
         #      freshly built shell of the new definition (no stale cached matrices)
         rd = scen.get('redefine')
@@ -415,6 +480,13 @@ def execute(scen):
                 scen2['shell']['r2'] = sh['r2'] * 1.2
                 cc.r2 = scen2['shell']['r2']
                 cc.r1 = None
+            elif rd == 'approx_call':
+                # nothing is re-defined: the client asks once for the non-linear matrices WITHOUT one of the terms (keywords of
+                # the matrix routine, listed among the property's observation points) and then goes on as before
+                if int(rrng.integers(0, 2)):
+                    cc._calc_NL_matrices(c, inc=scen['inc'], with_kLL=False)
+                else:
+                    cc._calc_NL_matrices(c, inc=scen['inc'], with_k0L=False)
             elif rd == 'prescribed':
                 scen2['shell']['thetaTdeg'] = sh.get('thetaTdeg', 0.0) + 1.5
                 scen2['shell']['betadeg'] = sh.get('betadeg', 0.0) + 0.4
@@ -474,6 +546,7 @@ def execute(scen):
             res['steps'] += 4
         if scale <= 10 * noise:
             bump(res['probes'], 'J5_nonlinear_part_below_noise')
+        check_held('end of scenario')
         bump(res['probes'], 'model_' + model)
         if sh['alphadeg']:
             bump(res['probes'], 'cone')
